@@ -192,6 +192,17 @@ def generate(rng, tier):
         return {"clauses": clauses, "assumptions": [], "solution_limit": 1, "luby_factor": rng.choice([1, 2, 10, 100]),
                 "max_restarts": 10000, "max_conflicts": 20000, "gc": rng.choice([16, 64, 2000]),
                 "decide": {"policy": rng.choice(["vsids", "vsids", "random"]), "seed": rng.getrandbits(30), "p": 1.0}}
+    if rng.random() < 0.15:
+        # medium near-threshold 3-SAT (z3 is the oracle) with an aggressive GC threshold and restart timer: learned-clause
+        # database reductions, renumbering of learned clauses and restarts interleave dozens of times per run
+        n = rng.randrange(18, 36)
+        clauses = []
+        for _ in range(int(n * rng.choice([4.0, 4.3, 4.6]))):
+            vs = rng.sample(range(1, n + 1), 3)
+            clauses.append([v if rng.random() < 0.5 else -v for v in vs])
+        return {"clauses": clauses, "assumptions": [], "solution_limit": 1, "luby_factor": rng.choice([1, 2, 3]),
+                "max_restarts": 10000, "max_conflicts": 20000, "gc": rng.choice([2, 4, 8, 16]),
+                "decide": {"policy": rng.choice(["random", "vsids"]), "seed": rng.getrandbits(30), "p": 1.0}}
     clauses = gen_formula(rng, big)
     if rng.random() < 0.03:
         clauses.append([])  # empty clause
@@ -409,6 +420,16 @@ def judge(case, r, o: Outcome, label, ref, shipped):
         if s.conflicts + 1 < case["max_conflicts"] and s.restarts < case["max_restarts"]:
             o.violate("C02", "early_max_iter", f"{label}: MAX_ITER after {s.conflicts} analysed conflicts / {s.restarts} restarts with budgets "
                       f"max_conflicts={case['max_conflicts']} max_restarts={case['max_restarts']}", **key)
+    if r["hooked"]:
+        s = r["sink"]
+        nv = max((abs(l) for c in clauses for l in c), default=1)
+        # work bounded by the budgets: the budget is tested after each decision, and a chain of conflicts without a decision in
+        # between is at most one per level, so more than max_conflicts + n_vars + 1 analysed conflicts means the budget is ignored
+        if s.conflicts > case["max_conflicts"] + nv + 1:
+            o.violate("C02", "budget_ignored", f"{label}: {s.conflicts} conflicts analysed with max_conflicts={case['max_conflicts']} "
+                      f"(status {st})", **key)
+        elif s.restarts > case["max_restarts"]:
+            o.violate("C02", "budget_ignored", f"{label}: {s.restarts} restarts with max_restarts={case['max_restarts']} (status {st})", **key)
     if st not in ("OPTIMAL", "INFEASIBLE", "MAX_ITER"):
         o.violate("C02", "bad_status", f"{label}: status {st}", **key)
     if st == "OPTIMAL" and res.solutions is not None and "count" in ref and len(res.solutions) < min(case["solution_limit"], ref["count"]):
